@@ -10,7 +10,7 @@ from .c16 import E, Par, gen_world, build_world
 ID = "C17"
 LEVEL = "exploration"
 RULE = ("random parent domains as in C16 (inner lists of length 0-4, overlapping, repeated elements, all lists empty in some "
-        "cases, scalar attribute in some) x variant {the single row | in_ | contains | not_(in_) | not_(contains) | or_(in_, cond) | not_(and_(cond, in_)) | and_(cond, in_) | membership after an earlier condition has bound the outer variable}; the parent a plain variable, a query with or_ alternatives, or a variable whose given domain holds no parent; a fifth of the cases concatenate two levels (concatenate(flatten(p.items).subs)) with inner objects shared between parents; of an "
+        "cases, scalar attribute in some) x variant {the single row | in_ | contains | not_(in_) | not_(contains) | or_(in_, cond) | not_(and_(cond, in_)) | and_(cond, in_) | the list selected through set_of, alone and next to its members | its first element compared | membership after an earlier condition has bound the outer variable}; the parent a plain variable, a query with or_ alternatives, or a variable whose given domain holds no parent; a fifth of the cases concatenate two levels (concatenate(flatten(p.items).subs)) with inner objects shared between parents; of an "
         "outer variable over the 5 element objects in a permuted order; caching on/off; every query is evaluated twice and a fresh concatenate over the same objects once more (the value must not drift, the user's lists must stay as they were). Non-trivial: the concatenation has "
         ">= 2 elements from >= 2 parents and, for membership variants, the answer is neither empty nor all. distinct by hash.")
 LEVEL_TEXT = ("Reference-model monitoring: the one-row result is compared element by element (identity, order, multiplicity) "
@@ -28,7 +28,7 @@ def plan(tier, seed):
 def floors(tier):
     return {"distinct_nontrivial": 300, "cls:variant:one": 500, "cls:variant:in": 300, "cls:variant:contains": 300,
             "cls:variant:notin": 300, "cls:variant:notcontains": 200, "cls:variant:or_in": 150, "cls:variant:not_and_in": 150,
-            "cls:variant:and_in": 150, "cls:variant:prebound_in": 150, "cls:variant:prebound_notin": 100,
+            "cls:variant:and_in": 150, "cls:variant:one_setof": 100, "cls:variant:in_with_list": 100, "cls:variant:index0": 100, "cls:variant:prebound_in": 150, "cls:variant:prebound_notin": 100,
             "cls:parent_is_a_query_with_alternatives": 300, "cls:parent_domain_without_parents": 100, "cls:two_level_concatenate": 300, "cls:plain_scalar_values": 100, "cls:all_empty": 30, "cls:scalar": 100,
             "re:Concatenate(@.*)?\\.enter": 2000}
 
@@ -42,7 +42,8 @@ def cases(spec, ctx):
                 p["items"] = []
         order = list(range(5))
         rng.shuffle(order)
-        case = {"world": w, "variant": rng.choice(["one", "one", "in", "contains", "notin", "notcontains", "or_in", "not_and_in", "and_in"]),
+        case = {"world": w, "variant": rng.choice(["one", "one", "in", "contains", "notin", "notcontains", "or_in", "not_and_in", "and_in",
+                                                   "one_setof", "in_with_list", "index0"]),
                 "order": order, "scalar": rng.random() < 0.1, "caching": rng.random() < 0.7, "thr": rng.randint(1, 4)}
         if rng.random() < 0.08:
             # scalar inner values, falsy ones included: each counts as one element of the concatenation
@@ -101,6 +102,8 @@ def check_case(case, ctx):
         flat = []
     dom = [es[i] for i in case["order"]]
     v = case["variant"]
+    if v == "index0" and not flat:
+        v = "in"        # [][0] raises in plain Python as well
     ctx.cls("cls:variant:" + v)
     if not flat:
         ctx.cls("cls:all_empty")
@@ -120,6 +123,9 @@ def check_case(case, ctx):
             thr = case.get("thr", 2)
             if v == "one":
                 q = an(entity(allv))
+            elif v == "one_setof":
+                from entity_query_language import set_of
+                q = an(set_of([allv]))
             else:
                 d = let(E, dom)
                 cond = {"in": lambda: in_(d, allv), "contains": lambda: contains(allv, d), "notin": lambda: not_(in_(d, allv)),
@@ -127,8 +133,12 @@ def check_case(case, ctx):
                         "or_in": lambda: or_(in_(d, allv), d.n == thr),
                         "not_and_in": lambda: not_(and_(d.n > thr, in_(d, allv))),
                         "and_in": lambda: and_(d.n > thr, in_(d, allv)),
-                        "prebound_in": lambda: in_(d, allv), "prebound_notin": lambda: not_(in_(d, allv))}[v]()
-                if v.startswith("prebound"):    # the outer variable is bound by an earlier condition
+                        "prebound_in": lambda: in_(d, allv), "prebound_notin": lambda: not_(in_(d, allv)),
+                        "in_with_list": lambda: in_(d, allv), "index0": lambda: d == allv[0]}[v]()
+                if v == "in_with_list":         # the combined list selected next to the member
+                    from entity_query_language import set_of
+                    q = an(set_of([d, allv], cond))
+                elif v.startswith("prebound"):    # the outer variable is bound by an earlier condition
                     q = an(entity(d, d.n != thr, cond))
                 else:
                     q = an(entity(d, cond))
@@ -149,6 +159,13 @@ def check_case(case, ctx):
             return
     finally:
         enable_caching()
+    lists_next_to_members = None
+    if v == "one_setof":
+        got, got2 = [r[allv] for r in got], [r[allv] for r in got2]
+        v = "one"
+    elif v == "in_with_list":
+        lists_next_to_members = [r[allv] for r in got] + [r[allv] for r in got2]
+        got, got2 = [r[d] for r in got], [r[d] for r in got2]
     mutated = [i for i, p_ in enumerate(ps) if len(p_.items) != len(snapshot[i]) or any(a is not b for a, b in zip(p_.items, snapshot[i]))]
     if case.get("plain_scalar"):
         ctx.cls("cls:plain_scalar_values")
@@ -163,13 +180,19 @@ def check_case(case, ctx):
         thr = case.get("thr", 2)
         sel = {"in": member, "contains": member, "notin": lambda x: not member(x), "notcontains": lambda x: not member(x),
                "or_in": lambda x: member(x) or x.n == thr, "not_and_in": lambda x: not (x.n > thr and member(x)),
-               "and_in": lambda x: x.n > thr and member(x), "prebound_in": lambda x: x.n != thr and member(x),
+               "and_in": lambda x: x.n > thr and member(x), "in_with_list": member,
+               "index0": lambda x: bool(flat) and x is flat[0], "prebound_in": lambda x: x.n != thr and member(x),
                "prebound_notin": lambda x: x.n != thr and not member(x)}[v]
         exp = [lab[id(x)] for x in dom if sel(x)]
         obs = [lab.get(id(x), f"?{type(x).__name__}") for x in got]
         nontrivial = 0 < len(exp) < len(dom)
     if nontrivial:
         ctx.nontrivial()
+    if lists_next_to_members is not None:
+        for l_ in lists_next_to_members:
+            if not isinstance(l_, (list, tuple)) or len(l_) != len(flat) or any(a is not b for a, b in zip(l_, flat)):
+                ctx.fail("CONCATENATE:list_selected_next_to_member", {"expected_len": len(flat), "observed": repr(l_)[:200]})
+                return
     if obs != exp:
         ctx.fail("CONCATENATE:" + v, {"expected": exp, "observed": obs})
     else:
